@@ -313,7 +313,7 @@ def run_op4_case(case, tier, res):
         # follow the count announced in the matrix header, not the line width)
         # ... including announced formats whose lines are longer than 80 columns (4E23.16, 5E20.12, 6E16.9, 3E30.17), files whose
         # matrices use different layouts, and files whose matrices announce different number formats
-        for dchar, (numlen, perline), onep, layout in itertools.product(("E", "D"), ((16, 5), (23, 3), (24, 3), (26, 3), (23, 2), (16, 4), (20, 3), (23, 4), (20, 5), (16, 6), (30, 3), ("p", 0)),
+        for dchar, (numlen, perline), onep, layout in itertools.product(("E", "D"), ((16, 5), (23, 3), (24, 3), (26, 3), (23, 2), (16, 4), (20, 3), (23, 4), (20, 5), (16, 6), (30, 3), (8, 10), ("p", 0)),
                                                                         (True, False), ("dense", "nonbigmat", "bigmat") + MIXED[:2]):
             permat = numlen == "p"
             if permat:
